@@ -18,6 +18,10 @@ func (g *fastGenerator) genUnmarshalMethod() {
 	g.P(`unmarshal := func(input `, protoifacePkg.Ident("UnmarshalInput"), `) (`, protoifacePkg.Ident("UnmarshalOutput"), `, error) {`)
 	g.P(`x := input.Message.Interface().(*`, g.message.GoIdent, `)`)
 	g.P(`if x == nil {`)
+	// decoding is a store: data must not be dropped silently because the destination is nil
+	g.P(`if len(input.Buf) > 0 {`)
+	g.P(`panic("proto: cannot unmarshal data into a nil `, string(g.message.Desc.FullName()), ` message")`)
+	g.P(`}`)
 	g.P(`return `, protoifacePkg.Ident("UnmarshalOutput"), ` {`)
 	g.P("NoUnkeyedLiterals: input.NoUnkeyedLiterals,")
 	g.P("Flags:               input.Flags,")
